@@ -581,7 +581,8 @@ pub fn run_t1_property(
 pub fn generated_pass(ctx: &Ctx, prop: &'static str, judge: fn(&T1Harness, &mut T1, RunEnd) -> Vec<(String, String, String)>, pol: [IoPolicy; 2]) -> Outcome {
     let quick = ctx.tier.is_quick();
     let t = if quick { 2 } else { 3 };
-    let scs = crate::gen::generated(t);
+    let mut scs = crate::gen::generated(t);
+    scs.extend(crate::gen::boundary_scenarios(quick));
     let mut o = run_t1_property(ctx, prop, &scs, judge, if quick { 1 } else { 2 }, pol, &[]);
     if let Some(h) = o.coverage.get_mut("harnesses").and_then(|v| v.as_object_mut()) {
         if let Some(x) = h.remove("t1-scenarios") {
@@ -630,6 +631,15 @@ pub fn replay(v: &Value, scs: &[Scenario], prop: &'static str, judge: fn(&T1Harn
                 let mut v2 = v.clone();
                 v2["scenario"] = json!(0);
                 v2["scenario_name"] = json!("resolved");
+                return replay(&v2, &[sc], prop, judge, pol);
+            }
+        }
+    }
+    if let Some(name) = v["scenario_name"].as_str() {
+        if !scs.iter().any(|s| s.name == name) {
+            if let Some(sc) = crate::gen::boundary_scenarios(false).into_iter().find(|s| s.name == name) {
+                let mut v2 = v.clone();
+                v2["scenario"] = json!(0);
                 return replay(&v2, &[sc], prop, judge, pol);
             }
         }
